@@ -151,6 +151,7 @@ static void run_vec(Ctx& c, uint64_t kN, unsigned k, int variant, uint64_t res_s
   if (res_size < a_size) c.cls("res<a");
   if (res_size > a_size) c.cls("res>a");
   if (inplace) c.cls("inplace");
+  if (inplace && n >= 8192 && a_size >= 2 && res_size >= a_size) c.cls("N>=8192 inplace");
   if (variant == 2 && a_size == 0) c.cls("begin==xend");
   if (variant == 2 && step > 1) c.cls("step>1");
   if (mt == NTT120) c.cls("module:NTT120");
@@ -161,7 +162,7 @@ std::vector<Sub> vh_subs() {
   {
     Sub s;
     s.name = "vec";
-    s.fields = {{"kN", 1, 12}, {"k", 1, 62}, {"variant", 0, 2}, {"res_size", 0, 7}, {"a_size", 0, 7}, {"res_pad", 0, 3}, {"a_pad", 0, 3},
+    s.fields = {{"kN", 1, 14}, {"k", 1, 62}, {"variant", 0, 2}, {"res_size", 0, 7}, {"a_size", 0, 7}, {"res_pad", 0, 3}, {"a_pad", 0, 3},
                 {"inplace", 0, 1}, {"begin", 0, 3}, {"step", 1, 4}, {"fam", 0, 9}, {"mtype", 0, 1}, {"prefill", 0, 3}, {"seed", 0, INT64_MAX - 1}};
     s.run = [](const Vals& v, Ctx& c) {
       run_vec(c, v[0], (unsigned)v[1], (int)v[2], v[3], v[4], v[5], v[6], v[7], v[8], v[9], (int)v[10], (int)v[11], (int)v[12], (uint64_t)v[13]);
@@ -192,7 +193,7 @@ std::vector<Sub> vh_subs() {
     // single-limb primitive: in + cin = out + cout*2^k for each of the six legal argument-presence combinations
     Sub s;
     s.name = "kernel";
-    s.fields = {{"logn", 0, 6}, {"k", 1, 62}, {"combo", 0, 5}, {"alias", 0, 3}, {"fam", 0, 9}, {"cfam", 0, 3}, {"seed", 0, INT64_MAX - 1}};
+    s.fields = {{"logn", 0, 14}, {"k", 1, 62}, {"combo", 0, 5}, {"alias", 0, 3}, {"fam", 0, 9}, {"cfam", 0, 3}, {"seed", 0, INT64_MAX - 1}};
     s.run = [](const Vals& v, Ctx& c) {
       const uint64_t n = 1ull << v[0];
       const unsigned k = (unsigned)v[1];
